@@ -65,3 +65,17 @@ Proof.
   set (A := erf (sqrt a * r) / r).
   apply Rabs_le. split; nra.
 Qed.
+
+(* unnormalised p type: total charge 3/2 pi^(3/2) / a^(5/2) (the documented constant factor) *)
+Lemma p_far_unnorm_lemma a r : 0 < a -> 0 < r ->
+  let Q := 3 / 2 * Rpower PI (3 / 2) / Rpower a (5 / 2) in
+  Rabs (r * cg_p_main_unnorm erf a r - Q) <= Q * ((4 / PI + 2 * sqrt a * r) * exp (- (a * r ^ 2))).
+Proof.
+  intros Ha Hr Q.
+  assert (HQ : 0 < Q).
+  { unfold Q. apply Rdiv_lt_0_compat; [|apply exp_pos]. apply Rmult_lt_0_compat; [lra|apply exp_pos]. }
+  assert (E : cg_p_main_unnorm erf a r = Q * cg_p_main erf a r) by reflexivity.
+  rewrite E.
+  replace (r * (Q * cg_p_main erf a r) - Q) with (Q * (r * cg_p_main erf a r - 1)) by ring.
+  rewrite Rabs_mult, (Rabs_pos_eq Q); [|lra]. apply Rmult_le_compat_l; [lra|]. apply p_far_lemma; assumption.
+Qed.
